@@ -72,7 +72,7 @@ func modeSelftest(seed int64, n int) {
 		}
 	}
 	line := map[string]interface{}{
-		"mode": "selftest", "seed": seed, "ops": ops, "mismatches": mismatches,
+		"mode": "selftest", "seed": seed, "pred_kind_strict": predKindStrict, "ops": ops, "mismatches": mismatches,
 		"lookups": lookups, "nonempty_lookups": nonempty, "by_op": byOp, "errors": errs,
 	}
 	if first != nil {
